@@ -267,17 +267,17 @@ where
 		Self { chain_tip, chain_poller, header_cache, chain_listener }
 	}
 
-	/// Polls for the best tip and updates the chain listener with any connected or disconnected
-	/// blocks accordingly.
-	///
-	/// Returns the best polled chain tip relative to the previous best known tip and whether any
-	/// blocks were indeed connected or disconnected.
 	/// Read-only view of the header cache and chain tip for the /verif harness (C20).
 	#[cfg(feature = "verif_hooks")]
 	pub fn verif_cache_and_tip(&self) -> (&HeaderCache, &ValidatedBlockHeader) {
 		(&self.header_cache, &self.chain_tip)
 	}
 
+	/// Polls for the best tip and updates the chain listener with any connected or disconnected
+	/// blocks accordingly.
+	///
+	/// Returns the best polled chain tip relative to the previous best known tip and whether any
+	/// blocks were indeed connected or disconnected.
 	pub async fn poll_best_tip(&mut self) -> BlockSourceResult<(ChainTip, bool)> {
 		let chain_tip = self.chain_poller.poll_chain_tip(self.chain_tip).await?;
 		let blocks_connected = match chain_tip {
